@@ -43,6 +43,8 @@ structure Grp (κ β : Type) where
   sub : SubSt := .none
   holdsRef : Bool := false         -- the subscriber holds an `InnerDisposable` of the RefCountDisposable
   seen : List (Notif β) := []      -- what the subscriber was delivered
+  dcnt : Nat := 0                  -- group-derived duration `g.pipe(skip n)`: elements still to be skipped
+  subLate : Bool := false          -- the subscriber subscribed after the duration observer (late subscription)
 deriving Repr
 
 /-- Observable effects, in the order they happen. -/
@@ -86,6 +88,10 @@ structure Cfg (α κ β : Type) where
   durMapper : Nat → Except Err Unit    -- duration_mapper(group #g); the observable it returns is source `dur g`
   dsync : Nat → Option (Notif Unit)    -- what duration #g emits synchronously inside its own subscribe (none: nothing)
   imm : Nat → Bool                     -- the outer subscriber subscribes to group #g inside its on_next
+  /-- `some n`: duration #g is derived from the group itself, `g.pipe(skip n)` / `g.pipe(take 1)` (n = 0): its
+  observer sits in the writer's observer list (after the subscriber attached inside the outer on_next, before
+  later subscribers) and fires on the (n+1)-th element the writer delivers -/
+  dgrp : Nat → Option Nat := fun _ => none
 
 variable {α κ β : Type}
 
@@ -195,6 +201,14 @@ def subscribeGroup (s : St κ β) (g : Nat) : St κ β :=
         subEnd (emit (modGrp s g fun r => { r with sub := .active, holdsRef := held, seen := r.seen ++ [n] }) (.grp g n)) g
   | none => s
 
+/-- a late subscription (event `subGroup g`): the observer joins the writer's observers after the duration observer -/
+def subscribeLate (s : St κ β) (g : Nat) : St κ β :=
+  match s.groups[g]? with
+  | some r =>
+    if r.sub = .none ∧ r.announced = true then modGrp (subscribeGroup s g) g fun r => { r with subLate := true }
+    else s
+  | none => s
+
 /-- `expire()` of group g -/
 def expire (cfg : Cfg α κ β) (s : St κ β) (g : Nat) : St κ β :=
   match s.groups[g]? with
@@ -264,7 +278,7 @@ def step (cfg : Cfg α κ β) (s : St κ β) : Ev α → St κ β
     else closeSrc (outerTerm (termAll { s with srcStopped := true } .completed) .completed)
   | .dur g n => durEvent cfg s g n
   | .disposeOuter => rcdDispose { s with outStopped := true }
-  | .subGroup g => subscribeGroup s g
+  | .subGroup g => subscribeLate s g
   | .disposeGroup g =>
     match s.groups[g]? with
     | some r => if r.sub = .active then subEnd s g else s
@@ -276,6 +290,135 @@ def run (cfg : Cfg α κ β) (s : St κ β) : List (Ev α) → St κ β
 
 /-- state right after `subscribe` -/
 def init : St κ β := {}
+
+/-! ## durations derived from the group itself (`duration_mapper = lambda g: g.pipe(ops.skip(n))`)
+
+The duration observer is one of the writer Subject's observers.  `Subject.on_next/on_error/on_completed` iterate the
+observers in subscription order: (tap,) the subscriber attached inside the outer `on_next(group)`, the duration
+observer, subscribers attached later.  So the duration fires *inside* `writer.on_next(element)` (re-entrant
+`expire()`), and the writer's own terminal reaches the duration observer too (re-entrant `expire()` on completion —
+with the loops over `list(writers.values())`, fix `C19_completion_mutates_writers` — and a nested error-all on error).
+`step` above is the machine without such durations; `stepD` is the general one and equals `step` when
+`cfg.dgrp = fun _ => none` (`C19.stepD_eq_step`). -/
+
+/-- `writer.on_next(v)` when the duration of group g may be derived from the group -/
+def writerNextD (cfg : Cfg α κ β) (s : St κ β) (g : Nat) (v : β) : St κ β :=
+  match s.groups[g]? with
+  | some r =>
+    if r.stopped then s
+    else if r.dur = .live ∧ (cfg.dgrp g).isSome = true then
+      if r.dcnt = 0 then
+        -- tap and the early subscriber get v, then the duration observer: skip exhausted → take(1) → on_completed →
+        -- expire() completes the writer inside its own on_next; a late subscriber is stopped before its turn comes
+        let s := emit (modGrp s g fun r => { r with wlog := r.wlog ++ [.next v] }) (.tap g (.next v))
+        let s := if r.sub = .active ∧ r.subLate = false then
+                   emit (modGrp s g fun r => { r with seen := r.seen ++ [.next v] }) (.grp g (.next v))
+                 else s
+        durFire cfg s g (.next ())
+      else writerNext (modGrp s g fun r => { r with dcnt := r.dcnt - 1 }) g v
+    else writerNext s g v
+  | none => s
+
+/-- `writer.on_error(e)` / `writer.on_completed()` when the duration of group g may be derived from the group;
+`errAll` is the (nested) `for wrt in writers…: wrt.on_error(e); observer.on_error(e)` of the duration's on_error -/
+def writerTermWith (cfg : Cfg α κ β) (errAll : St κ β → Err → St κ β) (s : St κ β) (g : Nat) (n : Notif β) : St κ β :=
+  match s.groups[g]? with
+  | some r =>
+    if r.stopped then s
+    else if r.dur = .live ∧ (cfg.dgrp g).isSome = true then
+      let s := emit (modGrp s g fun r => { r with stopped := true, exc := excOf n, wlog := r.wlog ++ [n] }) (.tap g n)
+      -- the early subscriber
+      let s := if r.sub = .active ∧ r.subLate = false then
+                 subEnd (emit (modGrp s g fun r => { r with seen := r.seen ++ [n] }) (.grp g n)) g
+               else s
+      -- the duration observer: completion → take(1) completes → expire(); error → its on_error handler
+      let s := match n with
+               | .error e => closeDur (errAll s e) g
+               | _ => durFire cfg s g .completed
+      -- a late subscriber
+      if r.sub = .active ∧ r.subLate = true then
+        subEnd (emit (modGrp s g fun r => { r with seen := r.seen ++ [n] }) (.grp g n)) g
+      else s
+    else writerTerm s g n
+  | none => s
+
+/-- error-all with nested error-alls of group-derived durations; `fuel` bounds the nesting (each level stops a writer) -/
+def errorAllD (cfg : Cfg α κ β) : Nat → St κ β → Err → St κ β
+  | 0, s, e => errorAll s e
+  | fuel + 1, s, e =>
+    outerTerm ((s.writers.map (·.2)).foldl (fun s g => writerTermWith cfg (errorAllD cfg fuel) s g (.error e)) s) (.error e)
+
+def errAllD (cfg : Cfg α κ β) (s : St κ β) (e : Err) : St κ β := errorAllD cfg (s.writers.length + 1) s e
+
+/-- `for wrt in list(writers.values()): wrt.on_completed()` -/
+def completeAllD (cfg : Cfg α κ β) (s : St κ β) : St κ β :=
+  (s.writers.map (·.2)).foldl (fun s g => writerTermWith cfg (fun s _ => s) s g .completed) s
+
+def durFireD (cfg : Cfg α κ β) (s : St κ β) (g : Nat) : Notif Unit → St κ β
+  | .error e => closeDur (errAllD cfg s e) g
+  | _ => closeDur (expire cfg s g) g
+
+def durEventD (cfg : Cfg α κ β) (s : St κ β) (g : Nat) (n : Notif Unit) : St κ β :=
+  match s.groups[g]? with
+  | some r => if r.dur = .live ∧ (cfg.dgrp g).isSome = false then durFireD cfg s g n else s
+  | none => s
+
+def pushElemD (cfg : Cfg α κ β) (s : St κ β) (g : Nat) (x : α) : St κ β :=
+  match cfg.elemMapper x with
+  | .error e => errAllD cfg s e
+  | .ok v => writerNextD cfg s g v
+
+def announceD (cfg : Cfg α κ β) (s : St κ β) (g : Nat) (k : κ) : St κ β :=
+  let s := if s.outStopped then s
+           else
+             let s := emit (modGrp s g fun r => { r with announced := true }) (.outer (.next (g, k)))
+             if cfg.imm g then subscribeGroup s g else s
+  match cfg.dgrp g with
+  | some n =>
+    -- duration = group.pipe(skip n): its observer joins the writer's observers now
+    let s := emit (modGrp s g fun r => { r with dur := .live, dcnt := n }) (.subDur g)
+    if s.rcdDisposed then closeDur s g else s
+  | none =>
+    match cfg.dsync g with
+    | some n => durFireD cfg s g n
+    | none =>
+      let s := emit (modGrp s g fun r => { r with dur := .live }) (.subDur g)
+      if s.rcdDisposed then closeDur s g else s
+
+def srcNextD (cfg : Cfg α κ β) (s : St κ β) (x : α) : St κ β :=
+  match cfg.keyMapper x with
+  | .error e => errAllD cfg s e
+  | .ok k =>
+    match s.writers.find? (fun p => cfg.keyEq p.1 k) with
+    | some p => pushElemD cfg s p.2 x
+    | none =>
+      let g := s.groups.length
+      match cfg.subjMapper g with
+      | .error e => errAllD cfg s e
+      | .ok _ =>
+        let s := { s with groups := s.groups ++ [{ key := k }], writers := s.writers ++ [(k, g)] }
+        match cfg.durMapper g with
+        | .error e => errAllD cfg s e
+        | .ok _ => pushElemD cfg (announceD cfg s g k) g x
+
+def stepD (cfg : Cfg α κ β) (s : St κ β) : Ev α → St κ β
+  | .src (.next x) => if s.srcStopped then s else srcNextD cfg s x
+  | .src (.error e) => if s.srcStopped then s else closeSrc (errAllD cfg { s with srcStopped := true } e)
+  | .src .completed =>
+    if s.srcStopped then s
+    else closeSrc (outerTerm (completeAllD cfg { s with srcStopped := true }) .completed)
+  | .dur g n => durEventD cfg s g n
+  | .disposeOuter => rcdDispose { s with outStopped := true }
+  | .subGroup g => subscribeLate s g
+  | .disposeGroup g =>
+    match s.groups[g]? with
+    | some r => if r.sub = .active then subEnd s g else s
+    | none => s
+
+def runD (cfg : Cfg α κ β) (s : St κ β) : List (Ev α) → St κ β
+  | [] => s
+  | e :: es => runD cfg (stepD cfg s e) es
+
 
 /-! ## partition: `publish()` + `ref_count()` + two `filter`s -/
 namespace Part
